@@ -144,8 +144,10 @@ func (e *Exec) nameReal(prefix, term string) string {
 }
 
 // finishRound returns the value for a finite-operand result with exact real x
-func (e *Exec) floatRounded(t types.Type, x string, finc, nanc, pinf, ninf string) Value {
-	k := e.freshConst("fk", "Int")
+func (e *Exec) floatRounded(t types.Type, x string, finc, nanc, pinf, ninf string, kindTerm string) Value {
+	// the kind is an uninterpreted function of the operands (so equal operands give equal kinds),
+	// constrained by the IEEE case table below
+	k := e.define("fk", "Int", kindTerm)
 	x = e.nameReal("fx", x)
 	r := e.nameReal("fr", e.fl.round(e, x))
 	finc = e.defineBool(finc)
@@ -178,7 +180,7 @@ func (e *Exec) floatBin(op string, a, b Value, t types.Type) Value {
 		nanc := fmt.Sprintf("(or %s %s (and (= %s 1) (= %s %s)) (and (= %s 2) (= %s %s)))", anan, bnan, ak, bk, b2, ak, bk, b1)
 		pinf := fmt.Sprintf("(and (not %s) (or (= %s 1) (= %s %s)))", nanc, ak, bk, b1)
 		ninf := fmt.Sprintf("(and (not %s) (or (= %s 2) (= %s %s)))", nanc, ak, bk, b2)
-		res := e.floatRounded(t, x, finc, nanc, pinf, ninf)
+		res := e.floatRounded(t, x, finc, nanc, pinf, ninf, kindUF(op, a, b))
 		e.intLemma(op, a, b, res)
 		return res
 	case "*":
@@ -201,7 +203,7 @@ func (e *Exec) floatBin(op string, a, b Value, t types.Type) Value {
 		sgn := fmt.Sprintf("(xor %s %s)", fNeg(a), fNeg(b))
 		pinf := "(and " + infc + " (not " + sgn + "))"
 		ninf := "(and " + infc + " " + sgn + ")"
-		res := e.floatRounded(t, x, finc, nanc, pinf, ninf)
+		res := e.floatRounded(t, x, finc, nanc, pinf, ninf, kindUF(op, a, b))
 		e.intLemma(op, a, b, res)
 		return res
 	case "/":
@@ -209,9 +211,9 @@ func (e *Exec) floatBin(op string, a, b Value, t types.Type) Value {
 		q := e.nameReal("fx", "(/ "+av+" "+bv+")")
 		nanc := fmt.Sprintf("(or %s %s (and %s %s) (and %s %s))", anan, bnan, fIsInf(a), fIsInf(b), fZero(a), fZero(b))
 		sgn := fmt.Sprintf("(xor %s %s)", fNeg(a), fNeg(b))
-		k := e.freshConst("fk", "Int")
+		k := e.define("fk", "Int", kindUF(op, a, b))
 		r := e.nameReal("fr", e.fl.round(e, q))
-		res := e.freshConst("fdiv", "Real")
+		res := e.define("fdiv", "Real", "(fv_div "+ak+" "+av+" "+bk+" "+bv+")")
 		nanc = e.defineBool(nanc)
 		e.axiom(fmt.Sprintf("(and (<= 0 %s) (<= %s 3))", k, k))
 		e.axiom(fmt.Sprintf("(=> %s (= %s 3))", nanc, k))
@@ -458,4 +460,9 @@ func (f *floatCtx) addInput(e *Exec, k, v string) {
 		}
 	}
 	f.inputs = append(f.inputs, fpoint{k, v})
+}
+
+func kindUF(op string, a, b Value) string {
+	name := map[string]string{"+": "fk_add", "-": "fk_sub", "*": "fk_mul", "/": "fk_div"}[op]
+	return "(" + name + " " + fk(a) + " " + fv(a) + " " + fk(b) + " " + fv(b) + ")"
 }
